@@ -16,6 +16,11 @@ MANIFEST = dict(
 
 def run(chk, tier):
     loop_check.run(chk, tier, 'C02')
+    # failures of the screen layer's own handlers (a callback of a screen raises: ExceptionSignal, the application's own
+    # exception handler or the kill with traceback and stack dump): whole application sessions, model <-> implementation,
+    # and the same acceptor chk_C02 on their traces
+    import screen_check
+    screen_check.run(chk, tier, "C02")
 
 
 def replay(path):
